@@ -6,6 +6,8 @@
 //!         [1, opcode, a1, a2, a3]                                    guest-memory level op
 //!         [2, ri]                                                    bitmap reset
 //!         [3, ri, off, len]                                          reset_addr_range
+//!         [4, ri, rj, doff, dlen, nchain, (dop, x, y, z)*]           slice-to-slice copy: accessor derived from region ri
+//!                                                                    (slice or array) .copy_to_volatile_slice(region rj .get_slice(doff, dlen))
 //! obs:   per step  [ok,count,late]  then per region  [dirty bit per page, +2 margin]  [changed-byte runs o,n,...]
 //!
 //!   accessor opcode 6 (descriptor read) a4: 0 a file holding a3 bytes, 1 a write-only descriptor (EBADF, nothing
@@ -40,6 +42,31 @@ static REGION_BASE: AtomicUsize = AtomicUsize::new(0);
 static REGION_MAPLEN: AtomicUsize = AtomicUsize::new(0);
 /// region offset from which the host pages of the current region are inaccessible (opcode 6, a4 = 2), else MAX
 static NOACCESS_FROM: AtomicUsize = AtomicUsize::new(usize::MAX);
+
+/// host range of the SOURCE of a slice-to-slice copy step (pre-filled with Y through the raw pointer, so
+/// not a change made by the library: excluded from the changed-byte scan and from the late-store probe)
+static SRC_LO: AtomicUsize = AtomicUsize::new(0);
+static SRC_LEN: AtomicUsize = AtomicUsize::new(0);
+fn in_src(addr: usize) -> bool {
+    let (lo, len) = (SRC_LO.load(Ordering::SeqCst), SRC_LEN.load(Ordering::SeqCst));
+    addr >= lo && addr - lo < len
+}
+
+/// before a slice-to-slice copy: refuses (None) when source and destination overlap (decided on the
+/// pointers the accessors themselves report), else fills the source with Y through the raw pointer and
+/// returns the number of bytes the copy is to move
+fn copy_prepare<S: BitmapSlice>(sp: usize, sl: usize, d: &VolatileSlice<S>) -> Option<u64> {
+    let (dp, dl) = (d.ptr_guard().as_ptr() as usize, d.len());
+    if sl > 0 && dl > 0 && sp < dp + dl && dp < sp + sl {
+        return None;
+    }
+    if sl > 0 {
+        unsafe { std::ptr::write_bytes(sp as *mut u8, Y, sl) };
+    }
+    SRC_LO.store(sp, Ordering::SeqCst);
+    SRC_LEN.store(sl, Ordering::SeqCst);
+    Some(std::cmp::min(sl, dl) as u64)
+}
 
 const X: u8 = 0x11;
 const Y: u8 = 0xee;
@@ -142,7 +169,7 @@ impl Flavour for Probe {
         for p in 0..np {
             let lo = p * self.ps;
             let hi = std::cmp::min(lo.saturating_add(self.ps), self.size);
-            if (lo..hi).any(|b| unsafe { std::ptr::read_volatile((base + b) as *const u8) } != X && !safe[b]) {
+            if (lo..hi).any(|b| unsafe { std::ptr::read_volatile((base + b) as *const u8) } != X && !safe[b] && !in_src(base + b)) {
                 late += 1;
             }
         }
@@ -277,6 +304,7 @@ fn run<B: Flavour + 'static>(case: &[Tok], nreg: usize) -> Vec<Tok> {
         for (r, g) in regs.iter().zip(&geos) {
             unsafe { std::ptr::write_bytes(r.as_ptr(), X, g.size) };
         }
+        SRC_LEN.store(0, Ordering::SeqCst);
         let (ok, count) = match s[0] {
             0 => {
                 let ri = s[1] as usize;
@@ -288,10 +316,26 @@ fn run<B: Flavour + 'static>(case: &[Tok], nreg: usize) -> Vec<Tok> {
                     let root = regs[ri].as_volatile_slice().unwrap();
                     let nch = s[7] as usize;
                     let chain: Vec<[u64; 4]> = (0..nch).map(|k| [s[8 + 4 * k], s[9 + 4 * k], s[10 + 4 * k], s[11 + 4 * k]]).collect();
-                    run_chain(root, &chain, &s[2..7])
+                    run_chain(&None, root, &chain, &s[2..7])
                 }
             }
             1 => guest_op(&gm, &s[1..]),
+            4 => {
+                let (ri, rj) = (s[1] as usize, s[2] as usize);
+                if ri >= regs.len() || rj >= regs.len() {
+                    (false, 0)
+                } else {
+                    let root = regs[ri].as_volatile_slice().unwrap();
+                    match regs[rj].as_volatile_slice().unwrap().get_slice(s[3] as usize, s[4] as usize) {
+                        Err(_) => (false, 0),
+                        Ok(d) => {
+                            let nch = s[5] as usize;
+                            let chain: Vec<[u64; 4]> = (0..nch).map(|k| [s[6 + 4 * k], s[7 + 4 * k], s[8 + 4 * k], s[9 + 4 * k]]).collect();
+                            run_chain(&Some(d), root, &chain, &[20, 0, 0, 0, 0])
+                        }
+                    }
+                }
+            }
             2 => {
                 if let Some(b) = regs.get(s[1] as usize).and_then(|r| r.bitmap().inner()) {
                     b.reset();
@@ -307,7 +351,7 @@ fn run<B: Flavour + 'static>(case: &[Tok], nreg: usize) -> Vec<Tok> {
             _ => (false, 0),
         };
         // the step has returned: every changed byte must have been noted by a mark of its page
-        let late: u64 = if s[0] <= 1 { regs.iter().map(|r| r.bitmap().take_late()).sum() } else { 0 };
+        let late: u64 = if s[0] <= 1 || s[0] == 4 { regs.iter().map(|r| r.bitmap().take_late()).sum() } else { 0 };
         out.push(Tok::L(vec![ok as u128, count as u128, late as u128]));
         for (r, g) in regs.iter().zip(&geos) {
             let np = g.size.div_ceil(g.ps);
@@ -316,10 +360,12 @@ fn run<B: Flavour + 'static>(case: &[Tok], nreg: usize) -> Vec<Tok> {
             let mem = unsafe { std::slice::from_raw_parts(r.as_ptr(), g.size) };
             let mut runs: Vec<u128> = Vec::new();
             let mut i = 0;
+            let hb = r.as_ptr() as usize;
+            let changed = |i: usize| mem[i] != X && !in_src(hb + i);
             while i < g.size {
-                if mem[i] != X {
+                if changed(i) {
                     let s0 = i;
-                    while i < g.size && mem[i] != X {
+                    while i < g.size && changed(i) {
                         i += 1;
                     }
                     runs.push(s0 as u128);
@@ -365,30 +411,30 @@ fn r1<T, E>(r: Result<T, E>, f: impl FnOnce(T) -> u64) -> (bool, u64) {
 }
 
 /// processes the derivation chain on a slice accessor, then the operation `op` = [code,a1,a2,a3,a4]
-fn run_chain<S: BitmapSlice>(cur: VolatileSlice<S>, chain: &[[u64; 4]], op: &[u64]) -> (bool, u64) {
+fn run_chain<'a, S: BitmapSlice>(dst: &Option<VolatileSlice<'a, S>>, cur: VolatileSlice<'a, S>, chain: &[[u64; 4]], op: &[u64]) -> (bool, u64) {
     if chain.is_empty() {
-        return slice_op(&cur, op);
+        return slice_op(dst, &cur, op);
     }
     let [d, x, y, z] = chain[0];
     let rest = &chain[1..];
     match d {
         0 => match cur.get_slice(x as usize, y as usize) {
-            Ok(s) => run_chain(s, rest, op),
+            Ok(s) => run_chain(dst, s, rest, op),
             Err(_) => (false, 0),
         },
         1 => match cur.offset(x as usize) {
-            Ok(s) => run_chain(s, rest, op),
+            Ok(s) => run_chain(dst, s, rest, op),
             Err(_) => (false, 0),
         },
         2 => match cur.split_at(x as usize) {
-            Ok((a, b)) => run_chain(if y != 0 { b } else { a }, rest, op),
+            Ok((a, b)) => run_chain(dst, if y != 0 { b } else { a }, rest, op),
             Err(_) => (false, 0),
         },
         3 => with_ty!(y, T, {
             match cur.get_ref::<T>(x as usize) {
                 Err(_) => (false, 0),
                 Ok(r) => match rest.first() {
-                    Some([6, ..]) => run_chain(r.to_slice(), &rest[1..], op),
+                    Some([6, ..]) => run_chain(dst, r.to_slice(), &rest[1..], op),
                     Some(_) => (false, 0),
                     None => match op[0] {
                         13 => { r.store(yval::<T>()); (true, std::mem::size_of::<T>() as u64) }
@@ -402,12 +448,12 @@ fn run_chain<S: BitmapSlice>(cur: VolatileSlice<S>, chain: &[[u64; 4]], op: &[u6
             match cur.get_array_ref::<T>(x as usize, z as usize) {
                 Err(_) => (false, 0),
                 Ok(arr) => match rest.first() {
-                    Some([6, ..]) => run_chain(arr.to_slice(), &rest[1..], op),
+                    Some([6, ..]) => run_chain(dst, arr.to_slice(), &rest[1..], op),
                     Some([5, i, ..]) => {
                         if (*i as usize) >= arr.len() { return (false, 0); }
                         let r = arr.ref_at(*i as usize);
                         match rest.get(1) {
-                            Some([6, ..]) => run_chain(r.to_slice(), &rest[2..], op),
+                            Some([6, ..]) => run_chain(dst, r.to_slice(), &rest[2..], op),
                             Some(_) => (false, 0),
                             None => match op[0] {
                                 13 => { r.store(yval::<T>()); (true, std::mem::size_of::<T>() as u64) }
@@ -433,6 +479,20 @@ fn run_chain<S: BitmapSlice>(cur: VolatileSlice<S>, chain: &[[u64; 4]], op: &[u6
                                 let mut buf: Vec<T> = (0..op[1] as usize).map(|_| yval::<T>()).collect();
                                 (true, arr.copy_to(&mut buf) as u64)
                             }
+                            20 => match dst {
+                                // VolatileArrayRef::copy_to_volatile_slice into the destination slice of the step
+                                Some(d) => {
+                                    let (sp, sl) = (arr.ptr_guard().as_ptr() as usize, arr.len() * arr.element_size());
+                                    match copy_prepare(sp, sl, d) {
+                                        Some(n) => {
+                                            arr.copy_to_volatile_slice(d.clone());
+                                            (true, n)
+                                        }
+                                        None => (false, 0),
+                                    }
+                                }
+                                None => (false, 0),
+                            },
                             _ => (false, 0),
                         }
                     }
@@ -443,7 +503,7 @@ fn run_chain<S: BitmapSlice>(cur: VolatileSlice<S>, chain: &[[u64; 4]], op: &[u6
     }
 }
 
-fn slice_op<S: BitmapSlice>(s: &VolatileSlice<S>, op: &[u64]) -> (bool, u64) {
+fn slice_op<'a, S: BitmapSlice>(dst: &Option<VolatileSlice<'a, S>>, s: &VolatileSlice<'a, S>, op: &[u64]) -> (bool, u64) {
     let (code, a1, a2, a3, a4) = (op[0], op[1] as usize, op[2] as usize, op[3] as usize, op[4]);
     let cap = 1usize << 16;
     match code {
@@ -552,6 +612,20 @@ fn slice_op<S: BitmapSlice>(s: &VolatileSlice<S>, op: &[u64]) -> (bool, u64) {
             let mut sink: Vec<u8> = Vec::new();
             r1(s.write_all_volatile_to(a2, &mut sink, a1), |_| a1 as u64)
         }
+        20 => match dst {
+            // VolatileSlice::copy_to_volatile_slice into the destination slice of the step
+            Some(d) => {
+                let (sp, sl) = (s.ptr_guard().as_ptr() as usize, s.len());
+                match copy_prepare(sp, sl, d) {
+                    Some(n) => {
+                        s.copy_to_volatile_slice(d.clone());
+                        (true, n)
+                    }
+                    None => (false, 0),
+                }
+            }
+            None => (false, 0),
+        },
         19 => {
             // stream write OUT of memory into a real descriptor: a memfd that takes everything, or (a4 != 0) a
             // read-only descriptor on which write(2) fails with EBADF - neither may mark anything
@@ -792,6 +866,32 @@ fn gen(rng: &mut Rng, tier: Tier, emit: &mut dyn FnMut(Vec<Tok>)) {
                                 }
                             }
                         }
+                    }
+                    if rng.chance(1, 6) {
+                        // slice-to-slice copy out of this accessor into a slice of some region
+                        let mut rj = rng.below(nreg as u64);
+                        if rj == ri && nreg > 1 && rng.chance(2, 3) {
+                            rj = (ri + 1) % nreg as u64;
+                        }
+                        let (_, sizej, psj) = geos[rj as usize];
+                        let (doff, dlen) = if rng.chance(3, 4) {
+                            // a destination that exists; mostly clear of the source when in the same region
+                            let mut doff = pick_near(rng, &[0, psj, sizej / 2, psj.saturating_sub(1), aoff + len]).min(sizej);
+                            if rj == ri && doff < aoff + len && rng.chance(3, 4) {
+                                doff = (aoff + len).min(sizej);
+                            }
+                            let room = sizej - doff;
+                            (doff, pick_near(rng, &[len, 1, psj, room, len + psj, room / 2]).min(room))
+                        } else {
+                            (
+                                pick_near(rng, &[0, psj, sizej / 2, sizej, psj.saturating_sub(1), aoff + len]).min(sizej + 2),
+                                pick_near(rng, &[len, 1, psj, sizej, 0, len + psj]).min(sizej + 2),
+                            )
+                        };
+                        let mut st = vec![4, ri, rj, doff, dlen, nch];
+                        st.extend_from_slice(&chain);
+                        case.push(Tok::of_u64s(&st));
+                        continue;
                     }
                     let (code, a1, a2, a3, a4) = match kind {
                         1 => (*rng.pick(&[13u64, 13, 14]), 0, 0, 0, 0),
